@@ -641,6 +641,14 @@ func TestVerifC08(t *testing.T) {
 			cand := func(c int, stream string) hdOp {
 				return hdOp{K: "media", C: c, Mk: "candidate", Stream: stream, To: hdToSession(c)}
 			}
+			// the other kinds decided by IsAllowedToSend: answer / endOfCandidates (for the own stream, as a candidate),
+			// sendoffer (to another session: that session subscribes to the sender's stream)
+			own := func(mk string, c int, stream string) hdOp {
+				return hdOp{K: "media", C: c, Mk: mk, Stream: stream, Media: 3, To: hdToSession(c)}
+			}
+			sendoffer := func(c, to int, stream string) hdOp {
+				return hdOp{K: "media", C: c, Mk: "sendoffer", Stream: stream, To: hdToSession(to)}
+			}
 			for _, set := range [][]int{{4}, {}, {0}, {1}, {0, 1}, {3}, {2}, {3, 2}, {0, 2}, {1, 2, 4}, {0, 1, 2, 3, 4, 5}} {
 				table := func() []hdOp {
 					var ops []hdOp
@@ -651,9 +659,16 @@ func TestVerifC08(t *testing.T) {
 						} else {
 							ops = append(ops, offer(1, st, 1), offer(1, st, 2), offer(1, st, 3), offer(1, st, 8), offer(1, st, 16+1))
 						}
-						ops = append(ops, cand(1, st))
+						ops = append(ops, cand(1, st), own("answer", 1, st), own("endOfCandidates", 1, st),
+							sendoffer(1, 2, st), sendoffer(1, 2, st), sendoffer(1, 1, st))
 					}
 					// a candidate for somebody else's stream is not a matter of publish permissions
+					ops = append(ops, own("answer", 2, "screen"), own("endOfCandidates", 2, "video"),
+						hdOp{K: "media", C: 1, Mk: "answer", Stream: "screen", Media: 3, To: hdToSession(2)}, hdOp{K: "media", C: 1, Mk: "endOfCandidates", Stream: "video", To: hdToSession(2)},
+						// sendoffer the other way round (session 2 has every permission), and to an id that is no session
+						sendoffer(2, 1, "screen"), sendoffer(2, 1, "video"),
+						hdOp{K: "media", C: 1, Mk: "sendoffer", Stream: "screen", To: &hdRecipient{T: "session", Id: &hdIdRef{T: "other", O: 1}}},
+						hdOp{K: "media", C: 1, Mk: "sendoffer", Stream: "video", To: &hdRecipient{T: "session", Id: &hdIdRef{T: "other", O: 1}}})
 					return append(ops, cand(2, "screen"), cand(2, "video"),
 						hdOp{K: "media", C: 1, Mk: "candidate", Stream: "screen", To: hdToSession(2)}, hdOp{K: "media", C: 1, Mk: "candidate", Stream: "video", To: hdToSession(2)})
 				}
@@ -662,6 +677,32 @@ func TestVerifC08(t *testing.T) {
 				ops = append(ops, perms(1, 0, 1, 2, 3, 4, 5), cand(1, "screen"), cand(1, "video"), offer(1, "screen", 0), offer(1, "video", 3), cand(1, "screen"), cand(1, "video"), perms(1, set...))
 				ops = append(ops, table()...)
 				add(false, ops...)
+			}
+			// the same table with ONE message kind per case (sendoffer / answer / endOfCandidates), so that a change at one
+			// call site of the permission test is reported through that kind: kind x stream type x permission set, the
+			// set given by the join reply, then everything granted, then the set again through the participants API
+			for _, mk := range []string{"sendoffer", "answer", "endOfCandidates"} {
+				for _, set := range [][]int{{4}, {}, {0}, {1}, {0, 1}, {3}, {2}, {3, 2}, {0, 2}, {1, 2, 4}, {0, 1, 2, 3, 4, 5}} {
+					one := func() []hdOp {
+						var ops []hdOp
+						for _, st := range []string{"screen", "video", "audio"} {
+							if mk == "sendoffer" {
+								ops = append(ops, sendoffer(1, 2, st), sendoffer(1, 2, st), sendoffer(1, 1, st),
+									hdOp{K: "media", C: 1, Mk: "sendoffer", Stream: st, To: &hdRecipient{T: "session", Id: &hdIdRef{T: "other", O: 1}}})
+							} else {
+								ops = append(ops, own(mk, 1, st), hdOp{K: "media", C: 1, Mk: mk, Stream: st, Media: 3, To: hdToSession(2)})
+							}
+						}
+						return ops
+					}
+					ops := []hdOp{joinP(1, 1, 1, set...), hdJoinOp(2, 1, 2), incall}
+					ops = append(ops, one()...)
+					ops = append(ops, perms(1, 0, 1, 2, 3, 4, 5))
+					ops = append(ops, one()...)
+					ops = append(ops, perms(1, set...))
+					ops = append(ops, one()...)
+					add(false, ops...)
+				}
 			}
 			return out
 		}})
